@@ -64,3 +64,8 @@ harness! { fn frame_header_fields_match_rfc() {
     nd_cover!(fcs_len == 2, "the +256 form");
     nd_cover!(did_len == 2 && did == 0, "zero dictionary id");
 } }
+
+/// build a header value directly (private fields) - used by state-injection harnesses in frame_decoder.rs
+pub(crate) fn mk_header(descriptor: u8, window_descriptor: u8, fcs: u64) -> FrameHeader {
+    FrameHeader { descriptor: FrameDescriptor(descriptor), window_descriptor, dict_id: None, frame_content_size: fcs }
+}
